@@ -411,6 +411,10 @@ def run(run: Run):
     run.rule('C03.R8', 'the tree a cell is translated from is parsed for that very cell, so its references are those of the cell (shared with C02.R8)')
     borrow(run, 'C03.R8', c02.r8_fresh_parse, src)
     run.floor('C03.R8', 1)
+    from .common import check_rejections_propagate
+    run.rule('C03.R9', 'the rejection of a cycle reaches the caller: no handler on the translation path turns it into a value')
+    run.guard('C03.R9', check_rejections_propagate, run, 'C03.R9', src, cg, ['Context.start_cell_translation'], 'a circular reference')
+    run.floor('C03.R9', 50)
     run.floor('C03.R1', 10)
     run.floor('C03.R2', 6)
     run.floor('C03.R3', 100)
